@@ -21,7 +21,7 @@ THEOREMS += ['Pfst.C01b.target_iff', 'Pfst.C01b.trailSep_spec', 'Pfst.C01b.trail
              'Pfst.C01b.fixTuple_delimited', 'Pfst.C01b.fixTuple_delimits_partial', 'Pfst.C01b.fixTuple_empty']
 # "delete all elements" decision of statement-like list fields (`_can_del_all`): lean/Pfst/CanDel.lean, Props/C01c.lean, harness/c01c.py
 THEOREMS += ['Pfst.C01c.canDelAll_iff_valid', 'Pfst.C01c.canDelAll_raw', 'Pfst.C01c.valid_preserved', 'Pfst.C01c.table_matches_model',
-             'Pfst.C01c.table_grammar_agrees', 'Pfst.C01c.table_rows_wellformed', 'Pfst.C01c.table_sound_complete']
+             'Pfst.C01c.table_grammar_agrees', 'Pfst.C01c.table_rows_wellformed', 'Pfst.C01c.table_sound_complete', 'Pfst.C01c.table_class_after']
 
 
 def extract(ctx):
